@@ -9,6 +9,7 @@ the source), `validate n` the same with the explicit `.crash` outcome.  All stat
 every tree: no bound on depth, width, string length, number of values.
 -/
 import OdmlModel.Model.Valid
+import OdmlModel.Model.ValidWriter
 import OdmlModel.Proofs.Valid
 import OdmlModel.Props.C09
 set_option linter.unusedSimpArgs false
@@ -767,5 +768,90 @@ example : validate (.sec (.mk ['4'] ['s'] (some ['t']) none none [p3, p3] [])) =
     .ok [⟨.prop [] 1, .propertyUniqueName, .error⟩] := by decide
 
 end Examples
+
+/-! ## The writer is an object: a save does not depend on what the writer was asked before
+
+`Model/ValidWriter.lean`: an `ODMLWriter` with the attributes `__init__` creates, `write_file` as a
+state transition, a session = one writer and the documents handed to it one after the other (the
+states of one document between edits, or different documents).  "Only errors block saving" for a
+writer that has been used: whatever it wrote or refused before, the document is refused iff it has
+an issue of one of the five error kinds *now*, and written iff all its issues are warnings. -/
+
+theorem validate_ok_or_crash (n : Node) : validate n = .crash ∨ validate n = .ok (issues n) := by
+  unfold validate runWith issues
+  by_cases h : crashesWith ruleCrashes defaultReg n = true
+  · left; simp [h]
+  · right; simp [h]
+
+theorem write_outcome_stateless (w : Writer) (d : Doc) : (w.writeFile d).2 = saveOutcome d := by
+  unfold Writer.writeFile saveOutcome
+  cases validate (.doc d) with
+  | crash => rfl
+  | ok iss =>
+    by_cases h : iss.any (·.rank == .error) = true
+    · simp [h]
+    · simp [h]
+      cases w.parser <;> rfl
+
+theorem write_session_pointwise (w : Writer) (ds : List Doc) :
+    w.session ds = ds.map saveOutcome := by
+  induction ds generalizing w with
+  | nil => rfl
+  | cons d ds ih => simp [Writer.session, write_outcome_stateless, ih]
+
+theorem save_outcome_refused_iff (d : Doc) :
+    saveOutcome d = .refused ↔
+      validate (.doc d) ≠ .crash ∧ ∃ iss ∈ issues (.doc d), iss.id ∈ errorKinds := by
+  rw [← blocks_save_iff]
+  rcases validate_ok_or_crash (.doc d) with h | h
+  · simp [saveOutcome, h]
+  · simp only [saveOutcome, h, blocksSave]
+    by_cases hb : (issues (.doc d)).any (·.rank == .error) = true
+    · simp [hb]
+    · simp [hb]
+
+theorem save_refused_iff_after_any_history (w : Writer) (pre : List Doc) (d : Doc)
+    (hd : validate (.doc d) ≠ .crash) :
+    (w.session (pre ++ [d])).getLast? = some .refused ↔
+      ∃ iss ∈ issues (.doc d), iss.id ∈ errorKinds := by
+  rw [write_session_pointwise]
+  simp only [List.map_append, List.map_cons, List.map_nil, List.getLast?_append, List.getLast?_singleton,
+    Option.some_or, Option.some.injEq]
+  rw [save_outcome_refused_iff]
+  simp [hd]
+
+theorem save_written_iff_after_any_history (w : Writer) (pre : List Doc) (d : Doc)
+    (hd : validate (.doc d) ≠ .crash) :
+    (w.session (pre ++ [d])).getLast? = some .written ↔
+      ∀ iss ∈ issues (.doc d), iss.rank = .warning := by
+  rw [write_session_pointwise]
+  simp only [List.map_append, List.map_cons, List.map_nil, List.getLast?_append, List.getLast?_singleton,
+    Option.some_or, Option.some.injEq]
+  rcases validate_ok_or_crash (.doc d) with h | h
+  · exact absurd h hd
+  · simp only [saveOutcome, h]
+    by_cases hb : (issues (.doc d)).any (·.rank == .error) = true
+    · simp only [hb, if_true]
+      constructor
+      · intro hc; cases hc
+      · intro hall
+        obtain ⟨iss, hi, hr⟩ := List.any_eq_true.mp hb
+        have := hall iss hi
+        simp [this] at hr
+    · simp only [hb]
+      constructor
+      · intro _ iss hi
+        cases hr : iss.rank with
+        | warning => rfl
+        | error =>
+          exfalso; apply hb
+          exact List.any_eq_true.mpr ⟨iss, hi, by simp [hr]⟩
+      · intro _; rfl
+
+/-- The history of the seeded change: refused, repaired, asked again. -/
+example : (Writer.fresh .xml).session
+    [{ id := ['0'], secs := [.mk ['1'] ['a'] none none none [] []] },
+     { id := ['0'], secs := [.mk ['1'] ['a'] (some ['t']) none none [] []] }] =
+    [.refused, .written] := by decide
 
 end C08
